@@ -378,6 +378,15 @@ impl Tag {
         if (data[0] & Tag::SINGLEBYTE_DATA_MASK) == Tag::SINGLEBYTE_DATA_MASK {
             for i in 1..=3 {
                 data[i] = source.take_u8()?;
+                // The tag number must be encoded in the fewest possible
+                // octets: no leading all-zero septet and no high-tag-number
+                // form for numbers that fit into the first octet.
+                if i == 1 && (
+                    data[i] == Tag::LAST_OCTET_MASK
+                    || u32::from(data[i]) <= Tag::MAX_VAL_FOURTH_OCTET
+                ) {
+                    return Err(source.content_err("non-minimal tag value"))
+                }
                 if data[i] & Tag::LAST_OCTET_MASK == 0 {
                     return Ok(Some((Tag(data), constructed)));
                 }
